@@ -204,6 +204,24 @@ fn param_lines(prefix: &str, ind: &str, names: &[String], leading_self: bool, de
     (lines, spans)
 }
 
+/// An import statement; for some module names (a function of the name) it sits inside a module-level
+/// `try: ... except ImportError: raise` or `if True:` block, as optional-dependency imports in real conftests do.
+fn guarded_import(w: &mut W, module: &str, stmt: &str) {
+    match module.bytes().map(|b| b as usize).sum::<usize>() % 9 {
+        0 => {
+            w.ln("try:");
+            w.ln(&format!("    {}", stmt));
+            w.ln("except ImportError:");
+            w.ln("    raise");
+        }
+        1 => {
+            w.ln("if True:");
+            w.ln(&format!("    {}", stmt));
+        }
+        _ => w.ln(stmt),
+    }
+}
+
 pub fn render(items: &[Item]) -> Rendered {
     let mut w = W { text: String::new(), line: 1 };
     let mut out = Rendered::default();
@@ -226,10 +244,10 @@ pub fn render(items: &[Item]) -> Rendered {
                     w.ln("");
                 }
             }
-            Item::Star { module, .. } => w.ln(&format!("from {} import *", module)),
+            Item::Star { module, .. } => guarded_import(&mut w, module, &format!("from {} import *", module)),
             Item::Import { module, names, .. } => {
                 if !names.is_empty() {
-                    w.ln(&format!("from {} import {}", module, names.join(", ")))
+                    guarded_import(&mut w, module, &format!("from {} import {}", module, names.join(", ")))
                 }
             }
             Item::Plugins { modules, .. } => {
